@@ -481,7 +481,15 @@ Proof.
     destruct (_ <? _).
     + inv_some H. apply kinv_act0 with (w := w); auto; rewrite ?Epc; try reflexivity.
       intros j Hj. eapply act_nochunk; eauto. cbn; auto.
-    + inv_some H.
+    + destruct (negb _).
+      { (* the turn was skipped by a failed later job *)
+        inv_some H. apply kinv_act1 with (w := w); auto; rewrite ?Epc; try reflexivity.
+        * unfold after_serial. match goal with |- context[if ?b then _ else _] => destruct b end; [reflexivity|]. apply next_chunk_props; lia.
+        * unfold after_serial. match goal with |- context[if ?b then _ else _] => destruct b end; [reflexivity|]. apply next_chunk_props; lia.
+        * intros Hj.
+          unfold after_serial. match goal with |- context[if ?b then _ else _] => destruct b end; [eapply act_nochunk; eauto; cbn; auto|].
+          destruct Hj as (A & B & C). apply next_chunk_props; auto; lia. }
+      inv_some H.
       match goal with |- KInv cfg (set_w t ?w' ?s2) =>
         assert (K2 : KInv cfg s2 /\ nth_error (ws s2) t = Some w /\ (forall k0, getj s2 k0 = getj s k0)) end.
       { destruct (_ && ldm (mt s)).
